@@ -64,6 +64,9 @@ def run(shard, ctx):
                     invalid = rng.random() < 0.6
                     if invalid:
                         a.update({"byte_block": 1, "t_type": 1, "t_length": rng.choice([1, 2, 3]), "blocksize": 0})
+                        # with and without a caller-provided buffer
+                        a["data"] = rng.choice([None, None, bytearray(0), bytearray(512), bytearray(b"\x01" * 7), bytearray(4096)])
+                        ctx.add("ata_invalid_data_argument", "none" if a["data"] is None else len(a["data"]))
                     else:
                         a.update({"byte_block": rng.choice([0, 1]), "t_type": 0, "blocksize": 0})
                         a["fetures"] &= 0x1F
@@ -84,6 +87,7 @@ def run(shard, ctx):
                     attempt(ctx, c.facade, "blocksize.%s" % name, ("MissingBlocksizeException",), lambda: harness.facade_call(c, s, dict(a)), dev, wit, valid=not invalid)
                     if not invalid and len(dev.calls) != 1:
                         ctx.fail("C17:blocksize.%s.valid_neighbour_not_sent" % name, "valid request sent %d commands" % len(dev.calls), wit)
+        attached_without_blocksize(ctx, rng, names)
         return
     if kind == "opcode":
         from pyscsi.pyscsi.scsi_cdb_testunitready import TestUnitReady
@@ -142,7 +146,7 @@ def run(shard, ctx):
             for i in range(n * 3):
                 a, _exp = DO.GEN[c.custom](rng, ("counts", rng.choice([1, 2]), rng.choice([1, 2]), 0))
                 kw = a["_kwargs"]
-                mut = i % 9
+                mut = i % 10
                 want = ("ValueError",)
                 if mut == 0:
                     rng.choice(kw[lk])["bogus_key_%d" % i] = 1
@@ -175,6 +179,19 @@ def run(shard, ctx):
                     d = rng.choice(kw[lk])
                     d[rng.choice(["cat", "dc", "descriptor_length", "block_device_number_of_blocks", "designator_type", "code_set"])] = 1
                     klass = "xcopy%d.cscd_key_of_another_structure" % spc
+                elif mut == 9:
+                    # a complete, well-formed descriptor of one kind that carries the type code of another kind
+                    fam = [(0x00, 0x01, 0x0B, 0x0C), (0x02, 0x0D)]
+                    src_f = rng.randrange(2)
+                    d, _e = DO.gen_segment(rng, spc, rng.choice(fam[src_f]))
+                    other = rng.choice(fam[1 - src_f])
+                    d["descriptor_type_code"] = rng.choice([other, DO.SEG_NAMES[other][0]])
+                    lst = kw["segment_descriptor_list"]
+                    lst[rng.randrange(len(lst))] = d
+                    if rng.random() < 0.5:
+                        # ... listed right after a valid descriptor of the kind it looks like
+                        lst.insert(lst.index(d), DO.gen_segment(rng, spc, rng.choice(fam[src_f]))[0])
+                    klass = "xcopy%d.segment_of_one_kind_typed_as_another" % spc
                 elif mut == 5:
                     code = rng.choice([x for x in cscd_codes if x != 0xE4])
                     rng.choice(kw[lk])["descriptor_type_code"] = code
@@ -246,6 +263,59 @@ def run(shard, ctx):
             a2 = {"service_action": sa, "scope": 0, "pr_type": 1, "_kwargs": kw2}
             ctx.case(("tid", "valid", sa, repr(tv)), False)
             attempt(ctx, "PersistentReserveOut", "transportid", (), lambda: harness.construct(c, "spc", DO.fresh(a2)), None, {"args": a2}, valid=True)
+
+
+def attached_without_blocksize(ctx, rng, names):
+    """the facade attached through the real SCSI(dev) / s(dev) (an INQUIRY answered with every peripheral device type), no block
+    size given: block transfers are refused and nothing but the INQUIRYs reaches the device"""
+    import pyscsi.pyscsi.scsi_enum_command as E
+    from pyscsi.pyscsi.scsi import SCSI
+
+    from vmon import harness
+    from vmon.spec import cdb as S
+
+    def device(devtype):
+        def fill(cmd):
+            if cmd.cdb[0] == 0x12 and len(cmd.datain):
+                cmd.datain[0] = devtype
+        return harness.Recorder(E.spc, fill)
+
+    def set_of(dev):
+        return next((n for n in ("spc", "sbc", "ssc", "smc", "mmc") if dev.opcodes is getattr(E, n)), "?")
+
+    for devtype in range(32):
+        for how in ("SCSI(dev)", "SCSI(dev, 0)", "re-attached"):
+            dev = device(devtype)
+            try:
+                if how == "SCSI(dev)":
+                    s = SCSI(dev)
+                elif how == "SCSI(dev, 0)":
+                    s = SCSI(dev, 0)
+                else:
+                    s = SCSI(device(rng.randrange(32)))
+                    s(dev)
+            except Exception as e:  # noqa: BLE001
+                ctx.fail("C17:blocksize.attach_raises.%s" % type(e).__name__, "%s with device type %02Xh raised %s" % (how, devtype, e), {"devtype": devtype, "how": how}, exc=e)
+                continue
+            setname = set_of(dev)
+            for name in names:
+                c = S.COMMANDS[name]
+                if setname not in c.sets:
+                    continue  # this table does not offer the command at all: another matter
+                a = dict(harness.random_args(c, rng, cap=4096))
+                if c.xfer == "ata":
+                    a.update({"byte_block": 1, "t_type": 1, "t_length": 2, "blocksize": 0})
+                elif a.get("ndob"):
+                    a["ndob"] = 0
+                kw = harness.call_kwargs(c, a)
+                if c.xfer != "ata":
+                    kw.pop("blocksize", None)
+                kw.update(c.facade_fixed)
+                wit = {"cmd": name, "devtype": devtype, "attached": how, "table": setname, "args": a}
+                ctx.case((name, how, devtype), True, sample={"cmd": name, "devtype": devtype, "attached": how} if ctx.want_sample() else None)
+                ctx.count("attached_facade_attempts")
+                attempt(ctx, "%s after %s to device type %02Xh" % (c.facade, how, devtype), "blocksize.attached_facade.%s" % name, ("MissingBlocksizeException",),
+                        lambda: getattr(s, c.facade)(**kw), dev, wit)
 
 
 def finalize(merged, tier):
